@@ -17,7 +17,9 @@ RULE = ("kernel-shaped inputs drawn from the theorem's domain and printed by the
         "state changed in between (link present / withheld with ENOENT or ESRCH / denied with EACCES; cmdline()[0] an executable file, a "
         "plain 0644 file, a searchable 0755 directory incl. '/' and a trailing-slash directory, dangling, relative -- each really put on "
         "disk, isabs/isfile/access(X_OK) answered separately by the file system); (comm, argv) pairs "
-        "around the 15-byte boundary (ASCII, multi-byte, truncated inside a character); a malformed stream (raw cmdline/environ "
+        "around the 15-byte boundary (ASCII, multi-byte, truncated inside a character); zombies (every pool name cut at 15 and 14 bytes: name(), cmdline(), exe(), cwd()); processes being torn down (stat absent "
+        "with or without the directory, probe refused); histories (cmdline(), the caller edits the returned list in place, cmdline(), name(), "
+        "exe() again, inside and outside oneshot()); a malformed stream (raw cmdline/environ "
         "bytes, ENOENT/ESRCH/EACCES on files and links, vanished /proc entries, zombies) compared with the model only; raw byte "
         "strings for the UTF-8/surrogateescape decoder. Exhaustive: all argv of <=3 args over {'', 'a', ' ', 'a b', 'a '} and all "
         "titles of <=3 words over {'', 'a', 'b'} x 3 terminators. Non-trivial = non-empty input; distinct = canonical case hash.")
@@ -331,6 +333,15 @@ def gen_cases(rng, tier):
         cls = "name-%s%s" % ("15" if len(comm) == 15 else "short" if len(comm) < 15 else "long",
                              "-nonascii" if max(comm, default=0) >= 0x80 else "")
         cases.append({"kind": "name", "cls": cls, "r": r})
+    # a process being torn down: stat absent (directory still there or not) / probe refused, link ENOENT or ESRCH
+    if tier != "search":
+        for pdir in (True, False):
+            for denied in (False, True):
+                for esrch in (False, True):
+                    if denied and not pdir:
+                        continue
+                    cases.append({"kind": "gone", "cls": "gone-%s-%s" % ("probe-denied" if denied else "stat-absent", "dir" if pdir else "nodir"),
+                                  "pdir": pdir, "denied": denied, "esrch": esrch})
     # zombies: every pool name cut at 15 and at 14 bytes (name() consults cmdline() only at >= 15 bytes)
     if tier != "search":
         for nm in NAME_POOL:
@@ -433,6 +444,8 @@ def coq_term(case):
         return "run_zombie %s %s %s" % (MODEL_CFG, G.by(unh(case["comm"])), G.bo(case["esrch"]))
     if k == "hist":
         return "run_hist %s %s" % (MODEL_CFG, _g_kproc(case["r"]))
+    if k == "gone":
+        return "run_gone %s %s %s" % (MODEL_CFG, G.bo(case["denied"]), G.bo(case["esrch"]))
     raise ValueError(k)
 
 
@@ -460,7 +473,7 @@ def coq_struct(case, raw):
         return {"model": model, "spec": None, "aux": raw[1]}
     if k == "udec":
         return {"model": raw, "spec": None}
-    if k == "zombie":
+    if k in ("zombie", "gone"):
         return {"model": raw[0], "spec": raw[1]}
     if k == "hist":
         return {"printed": raw[0], "model": raw[1], "spec": raw[2], "aux": [raw[3]]}
@@ -510,6 +523,11 @@ def _steps_of(case, coq):
         w = ["ESRCH" if case["esrch"] else "ENOENT"]
         v = dict(base, stat="Z", comm=case["comm"], exe=w, cwd=w)
         return [(v, op, None) for op in ("name", "cmdline", "exe", "cwd")]
+    if k == "gone":
+        w = ["ESRCH" if case["esrch"] else "ENOENT"]
+        v = dict(base, pdir=case["pdir"] or case["denied"], stat="DENIED" if case["denied"] else None, cmdline=["ENOENT"],
+                 environ=["ENOENT"], exe=w, cwd=w)
+        return [(v, op, None) for op in (("cwd",) if case["denied"] else ("cwd", "exe"))]
     raise ValueError(k)
 
 
